@@ -230,7 +230,7 @@ fn value_for_external_enum(
             }
             VariantDetails::Tuple(types) => {
                 let tup = value_for_tuple(type_space, var_value, types, scope)?;
-                Some(quote! { #scope #type_ident::#var_ident ( #( #tup ),* ) })
+                Some(variant_tuple(scope, &type_ident, &var_ident, tup))
             }
             VariantDetails::Struct(props) => {
                 let props = value_for_struct_props(props, var_value, type_space, scope)?;
@@ -305,7 +305,7 @@ fn value_for_adjacent_enum(
         (VariantDetails::Simple, None) => Some(quote! { #scope #type_ident::#var_ident}),
         (VariantDetails::Tuple(types), Some(content_value)) => {
             let tup = value_for_tuple(type_space, content_value, types, scope)?;
-            Some(quote! { #scope #type_ident::#var_ident ( #( #tup ),* ) })
+            Some(variant_tuple(scope, &type_ident, &var_ident, tup))
         }
         (VariantDetails::Struct(props), Some(content_value)) => {
             let props = value_for_struct_props(props, content_value, type_space, scope)?;
@@ -336,7 +336,7 @@ fn value_for_untagged_enum(
             }
             VariantDetails::Tuple(types) => {
                 let tup = value_for_tuple(type_space, value, types, scope)?;
-                Some(quote! { #scope #type_ident::#var_ident ( #( #tup ),* ) })
+                Some(variant_tuple(scope, &type_ident, &var_ident, tup))
             }
             VariantDetails::Struct(props) => {
                 let props = value_for_struct_props(props, value, type_space, scope)?;
@@ -344,6 +344,22 @@ fn value_for_untagged_enum(
             }
         }
     })
+}
+
+/// Construct a tuple variant from the rendered elements. A variant whose
+/// payload is a one-element tuple is declared as `Variant((T,))` (its single
+/// field is the tuple itself), so its value is `Variant((x,))`.
+fn variant_tuple(
+    scope: &TokenStream,
+    type_ident: &proc_macro2::Ident,
+    var_ident: &proc_macro2::Ident,
+    tup: Vec<TokenStream>,
+) -> TokenStream {
+    if tup.len() == 1 {
+        quote! { #scope #type_ident::#var_ident ( ( #( #tup ),* , ) ) }
+    } else {
+        quote! { #scope #type_ident::#var_ident ( #( #tup ),* ) }
+    }
 }
 
 fn value_for_item(
